@@ -490,8 +490,10 @@ func RunC09(c *Ctx) error {
 			}
 			for _, fs := range flagSubsets() {
 				if c.Tier == "thorough" {
-					for _, env := range envs {
-						add(gc, fs, env)
+					for ei, env := range envs {
+						if id == "calc" || ei%5 == len(fs)%5 {
+							add(gc, fs, env) // calc: every flag subset in every environment; the others: a fifth
+						}
 					}
 				} else {
 					add(gc, fs, envs[len(fs)%len(envs)])
@@ -539,6 +541,7 @@ func RunC09(c *Ctx) error {
 			c09Judge(c, st, cs, c09Plan{Spec: cs.spec, Env: cs.env}, cs.ref, nil, false, "fault-free")
 			continue
 		}
+		defer func(r *engine.Result) { r.Files = nil }(realRes[i])
 		if d := c11Compare(realRes[i], cs.ref); d != "" {
 			return Harnessf("fidelity: instrumented gocc differs from the real binary on %s %v env=%+v: %s", cs.gc.ID, cs.flags, cs.env, d)
 		}
@@ -614,8 +617,8 @@ func RunC09(c *Ctx) error {
 		if c.Tier == "quick" && !(ci%29 == 0 || (cs.gc.ID == "calc" || cs.gc.ID == "lexonly") && len(cs.flags) <= 1) {
 			continue
 		}
-		if c.Tier == "thorough" && cs.gc.IR == nil && ci%3 != 0 {
-			continue
+		if c.Tier == "thorough" && !(len(cs.flags) <= len(cs.gc.NeedFlags)+1 && cs.gc.IR != nil || ci%6 == 0) {
+			continue // thorough: every configuration with at most one optional flag, every sixth of the others
 		}
 		faultCfgs++
 		rr := prng.Sub(c.Seed, "c09/"+cs.key(), ci)
@@ -686,6 +689,8 @@ func RunC09(c *Ctx) error {
 		}
 	}
 	c.Logf("%d configurations under fault enumeration, %d faulted runs planned", faultCfgs, len(jobs))
+	var statMu sync.Mutex
+	exit0UnderFault := 0
 	err = c.ParallelDo(len(jobs), func(w, i int) error {
 		j := jobs[i]
 		res, err := st.execFull(st.workers[w], j.cs, j.plan.Faults, j.plan.FullAfter, false)
@@ -700,34 +705,38 @@ func RunC09(c *Ctx) error {
 			}
 			j.rerun = r2
 		}
-		return nil
-	})
-	if err != nil {
-		return Harnessf("faulted runs: %v", err)
-	}
-	exit0UnderFault := 0
-	for _, j := range jobs {
-		evals++
-		ticks += j.res.Ticks
+		// judge at once and let go of the file contents (a thorough run makes hundreds
+		// of thousands of runs)
 		firedAny := false
+		var firedKeys []string
 		for _, op := range j.res.Ops {
 			if op.Fault != "-" {
-				fired[strings.SplitN(op.Fault, ":", 2)[0]+"@"+op.Call]++
+				firedKeys = append(firedKeys, strings.SplitN(op.Fault, ":", 2)[0]+"@"+op.Call)
 				firedAny = true
 			}
 		}
 		if j.cs.env.Pre != "" {
-			fired["stale-dir:"+j.cs.env.Pre]++
+			firedKeys = append(firedKeys, "stale-dir:"+j.cs.env.Pre)
 			firedAny = true
 		}
 		if j.plan.FullAfter > 0 {
 			for _, l := range j.res.LogLines {
 				if strings.HasPrefix(l, "disk-full") {
-					fired["disk-full"]++
+					firedKeys = append(firedKeys, "disk-full")
 					firedAny = true
 					break
 				}
 			}
+		}
+		c09Judge(c, st, j.cs, j.plan, j.res, j.cs.ref, j.output, "faulted")
+		if j.rerun != nil {
+			c09JudgeRerun(c, st, j.cs, j.plan, j.rerun)
+		}
+		statMu.Lock()
+		evals++
+		ticks += j.res.Ticks
+		for _, k := range firedKeys {
+			fired[k]++
 		}
 		if firedAny {
 			distinct[j.cs.key()+"|"+fmt.Sprint(j.plan.Faults, j.plan.FullAfter)+"|"+j.cs.env.Pre] = true
@@ -735,16 +744,22 @@ func RunC09(c *Ctx) error {
 		if j.res.Exit == 0 {
 			exit0UnderFault++
 		}
-		c09Judge(c, st, j.cs, j.plan, j.res, j.cs.ref, j.output, "faulted")
 		if j.rerun != nil {
 			evals++
 			fired["rerun-after-crash"]++
-			pl := j.plan
-			c09JudgeRerun(c, st, j.cs, pl, j.rerun)
 		}
 		if len(samples) < 5 && firedAny && len(j.plan.Faults) > 0 && (len(samples) == 0 || j.plan.Faults[0].Kind != "err") {
 			samples = append(samples, map[string]interface{}{"grammar": j.cs.gc.ID, "flags": j.cs.flags, "env": j.cs.env, "faults": j.plan.Faults, "exit": j.res.Exit, "ops": len(j.res.Ops), "rerun": j.plan.Rerun})
 		}
+		statMu.Unlock()
+		j.res.Files, j.res.LogLines = nil, nil
+		if j.rerun != nil {
+			j.rerun.Files, j.rerun.LogLines = nil, nil
+		}
+		return nil
+	})
+	if err != nil {
+		return Harnessf("faulted runs: %v", err)
 	}
 	// ---- pass C: damaged grammar files (truncated inside a token, a byte dropped or
 	// doubled): the run must still terminate within the tick budget, and exit 0
@@ -794,40 +809,42 @@ func RunC09(c *Ctx) error {
 			mjobs = append(mjobs, &mjob{cs: &cs2, what: what})
 		}
 	}
+	damagedExit0 := 0
 	err = c.ParallelDo(len(mjobs), func(w, i int) error {
-		res, err := st.exec(st.workers[w], mjobs[i].cs, nil, false)
+		mj := mjobs[i]
+		res, err := st.exec(st.workers[w], mj.cs, nil, false)
 		if err != nil {
 			return err
 		}
-		mjobs[i].res = res
-		return nil
-	})
-	if err != nil {
-		return Harnessf("damaged-file runs: %v", err)
-	}
-	damagedExit0 := 0
-	for _, mj := range mjobs {
-		evals++
-		ticks += mj.res.Ticks
-		fired["damaged-grammar-file"]++
-		distinct[mj.cs.key()+"|"+mj.what] = true
 		key := map[string]string{"grammar": mj.cs.gc.ID}
 		plan := c09Plan{Spec: mj.cs.spec, Env: mj.cs.env, Class: "damaged-file"}
-		if mj.res.TimedOut || mj.res.Exit == simrt.ExitTickBudget {
-			c.Report(&Violation{Class: "non-termination", Key: key, Size: len(mj.cs.spec.GrammarText),
-				Detail: fmt.Sprintf("%s %v with the grammar file %s: gocc did not terminate within %d ticks (ticks so far %d)", mj.cs.gc.ID, mj.cs.flags, mj.what, int64(c09TickBudget), mj.res.Ticks), Plan: plan})
-			continue
-		}
-		if mj.res.Exit == 0 {
+		statMu.Lock()
+		evals++
+		ticks += res.Ticks
+		fired["damaged-grammar-file"]++
+		distinct[mj.cs.key()+"|"+mj.what] = true
+		if res.Exit == 0 {
 			damagedExit0++
+		}
+		statMu.Unlock()
+		if res.TimedOut || res.Exit == simrt.ExitTickBudget {
+			c.Report(&Violation{Class: "non-termination", Key: key, Size: len(mj.cs.spec.GrammarText),
+				Detail: fmt.Sprintf("%s %v with the grammar file %s: gocc did not terminate within %d ticks (ticks so far %d)", mj.cs.gc.ID, mj.cs.flags, mj.what, int64(c09TickBudget), res.Ticks), Plan: plan})
+			return nil
+		}
+		if res.Exit == 0 {
 			pk := []string{"token", "util"}
 			if !hasFlag(mj.cs.flags, "-no_lexer") {
 				pk = append(pk, "lexer")
 			}
-			if d := c09Complete(mj.res.Files, mj.cs.spec.OutDir(), pk); d != "" {
+			if d := c09Complete(res.Files, mj.cs.spec.OutDir(), pk); d != "" {
 				c.Report(&Violation{Class: "exit0-incomplete", Key: key, Detail: fmt.Sprintf("%s %v with the grammar file %s: exit status 0 but %s", mj.cs.gc.ID, mj.cs.flags, mj.what, d), Plan: plan})
 			}
 		}
+		return nil
+	})
+	if err != nil {
+		return Harnessf("damaged-file runs: %v", err)
 	}
 	c.Logf("%d damaged grammar files run (%d still exit 0)", len(mjobs), damagedExit0)
 	c.Logf("%d runs judged, %d distinct faulted, %d exited 0 under a fault, %d violations", evals, len(distinct), exit0UnderFault, c.NumViolations())
